@@ -355,6 +355,15 @@ fn check_open(ctx: &Ctx, c: &OpenCase) -> PResult {
         ensure!(r.is_err(), "batch-check-empty-accepted", "empty batch accepted");
         let r = no_panic("batch-check-panic", || k::kzg_batch_check(&pp, &points[..points.len() - 1], &entries, b"c20"))?;
         ensure!(r.is_err(), "batch-check-length-mismatch-accepted", "mismatched lengths accepted");
+        // more points than proofs: nothing is opened at the surplus points
+        let mut more = points.clone();
+        more.push(c.v.0 + F::one());
+        let r = no_panic("batch-check-panic", || k::kzg_batch_check(&pp, &more, &entries, b"c20"))?;
+        ensure!(r.is_err(), "batch-check-length-mismatch-accepted", "a batch with more points than proofs was accepted");
+        let mut twice = points.clone();
+        twice.extend(points.iter().cloned());
+        let r = no_panic("batch-check-panic", || k::kzg_batch_check(&pp, &twice, &entries, b"c20"))?;
+        ensure!(r.is_err(), "batch-check-length-mismatch-accepted", "a batch with twice as many points as proofs was accepted");
         ctx.label("empty / mismatched batch refused");
     }
     if polys.iter().any(|p| naive::trim(p.clone()).len() >= 2) && (entries.len() >= 2 || !expect_ok) {
@@ -373,6 +382,6 @@ pub fn props() -> Vec<(Box<dyn PropDyn>, u32, u32)> {
 }
 
 pub fn describe(ctx: &Ctx) {
-    ctx.rule("cases: setup(N) for N 1..160 (512 thorough) with seeded secrets and every trim size 0..N+7; polynomials of length around the key size (key length -3..+3) incl. the zero polynomial; 1..8 polynomials opened at points incl. 0, 1 and domain elements, either aggregated at one point (flatten) or as a batch over several points, with zero or ONE wrong entry at a generated position (wrong evaluation / wrong witness / commitment of another polynomial / swapped witnesses) or TWO wrong entries whose errors cancel under equal batch weights (evaluations swapped, evaluations off by (d,-d), commitments off by (D,-D), first and last entry), empty batch, length mismatch. Oracle: pairing relations on the parsed public bytes e([x^i]g,h)=e([x^(i-1)]g,xh); trim = prefix t+7 or TruncatedDegreeTooLarge; commit = own MSM, additive, homogeneous, identity for zero, PolynomialDegreeTooLarge beyond the key; batch_check Ok iff every entry passes an independent e(C - y g, h) = e(W, xh - zh) check. non-trivial = degree >= 2 (srs), polynomial of degree >= 1 (commit), batch >= 2 or a wrong entry (openings); distinct by case");
+    ctx.rule("cases: setup(N) for N 1..160 (512 thorough) with seeded secrets and every trim size 0..N+7; polynomials of length around the key size (key length -3..+3) incl. the zero polynomial; 1..8 polynomials opened at points incl. 0, 1 and domain elements, either aggregated at one point (flatten) or as a batch over several points, with zero or ONE wrong entry at a generated position (wrong evaluation / wrong witness / commitment of another polynomial / swapped witnesses) or TWO wrong entries whose errors cancel under equal batch weights (evaluations swapped, evaluations off by (d,-d), commitments off by (D,-D), first and last entry), empty batch, length mismatch in both directions (fewer and more points than proofs). Oracle: pairing relations on the parsed public bytes e([x^i]g,h)=e([x^(i-1)]g,xh); trim = prefix t+7 or TruncatedDegreeTooLarge; commit = own MSM, additive, homogeneous, identity for zero, PolynomialDegreeTooLarge beyond the key; batch_check Ok iff every entry passes an independent e(C - y g, h) = e(W, xh - zh) check. non-trivial = degree >= 2 (srs), polynomial of degree >= 1 (commit), batch >= 2 or a wrong entry (openings); distinct by case");
     ctx.assume("dusk-bls12_381 pairing and group arithmetic are trusted; batch verification soundness holds up to the negligible probability of the random linear combination");
 }
